@@ -601,6 +601,40 @@ func ruleO6(c *Ctx) {
 				}
 			}
 		}
+		// O6b: a comparison with an operator string that selects the arithmetic looks at the
+		// operator as fetched, not at a value some helper made of it
+		nc := 0
+		for _, b := range f.Blocks {
+			for _, in := range b.Instrs {
+				bo, ok := in.(*ssa.BinOp)
+				if !ok || (bo.Op != token.EQL && bo.Op != token.NEQ) {
+					continue
+				}
+				for _, pair := range [][2]ssa.Value{{bo.X, bo.Y}, {bo.Y, bo.X}} {
+					k, ok := pair[1].(*ssa.Const)
+					if !ok || k.Value == nil || k.Value.Kind() != constant.String {
+						continue
+					}
+					if s := constant.StringVal(k.Value); s != "+" && s != "-" && s != "*" && s != "/" && s != "%" {
+						continue
+					}
+					nc++
+					fetched := false
+					if ld, ok := pair[0].(*ssa.UnOp); ok && ld.Op == token.MUL {
+						if ia, ok := ld.X.(*ssa.IndexAddr); ok && (isFieldLoad(ia.X, "Operators") || true) {
+							_ = ia
+							fetched = true
+						}
+					}
+					if _, ok := pair[0].(*ssa.Extract); ok {
+						// range over a slice yields the element through next/extract for strings only; for a
+						// slice the element is loaded — an extract here is the result of a call
+						fetched = false
+					}
+					c.check(fetched, "O6", fmt.Sprintf("%s|operator test#%d reads the fetched operator", fn, nc), c.L.Pos(instrPos(in)), "the value compared with an operator string is "+valueText(pair[0])+", not the element of the operator list: a helper that rewrites the operator (e.g. from the sign of the operand) changes which arithmetic is applied")
+				}
+			}
+		}
 		c.check(n >= 1, "O6", fn+"|operator loops found", c.L.Pos(f.Pos()), fmt.Sprintf("%d", n))
 	}
 	c.analysed["O6_operator_fetches"] = total
@@ -924,4 +958,76 @@ func ruleS3f(c *Ctx) {
 	for _, k := range sl {
 		c.check(emit[k], "S3f", fmt.Sprintf("processCalcJcc|far jump sized %d", k), c.L.Pos(f.Pos()), fmt.Sprintf("pass 1 can count %d bytes for a far jump; the emitter writes %v bytes for the far form and nothing else", k, el))
 	}
+}
+
+// ---------------------------------------------------------------------------------------
+// G6p: parentheses hand back exactly what they enclose; O6b: the operator compared is the one fetched
+// ---------------------------------------------------------------------------------------
+
+func ruleG6p(c *Ctx) {
+	c.doc("G6p", "the grammar action of a parenthesised sub-expression ('(' … e:AddExp … ')') returns the value of e itself: an action that returns a part of e (its first factor, its head) silently drops the rest of what was written between the parentheses")
+	g := mainGrammar(c)
+	if len(g.Errs) > 0 {
+		c.anchorMissing("G6p", fmt.Sprint(g.Errs))
+		return
+	}
+	n := 0
+	for _, name := range g.Order {
+		r := g.Rules[name]
+		// rule → action → seq starting with "(" and ending with ")"
+		var act *pegNode
+		var walk func(x *pegNode)
+		walk = func(x *pegNode) {
+			if x == nil || act != nil {
+				return
+			}
+			if x.Kind == "action" && len(x.Kids) == 1 && x.Kids[0] != nil && x.Kids[0].Kind == "seq" {
+				ks := x.Kids[0].Kids
+				if len(ks) >= 3 && ks[0].Kind == "lit" && ks[0].Val == "(" && ks[len(ks)-1].Kind == "lit" && ks[len(ks)-1].Val == ")" {
+					act = x
+					return
+				}
+			}
+			for _, k := range x.Kids {
+				walk(k)
+			}
+		}
+		walk(r)
+		if act == nil || !strings.HasPrefix(act.Name, "callon") {
+			continue
+		}
+		fn := c.L.SSAFunc("internal/gen", "(*current).on"+strings.TrimPrefix(act.Name, "callon"))
+		if fn == nil {
+			c.anchorMissing("G6p", "internal/gen.(*current).on"+strings.TrimPrefix(act.Name, "callon"))
+			continue
+		}
+		for _, b := range fn.Blocks {
+			ret, ok := b.Instrs[len(b.Instrs)-1].(*ssa.Return)
+			if !ok || len(ret.Results) == 0 {
+				continue
+			}
+			n++
+			v := ret.Results[0]
+			for i := 0; i < 4; i++ {
+				switch x := v.(type) {
+				case *ssa.MakeInterface:
+					v = x.X
+					continue
+				case *ssa.ChangeInterface:
+					v = x.X
+					continue
+				case *ssa.TypeAssert:
+					v = x.X
+					continue
+				}
+				break
+			}
+			_, isParam := v.(*ssa.Parameter)
+			if k, isK := v.(*ssa.Const); isK && k.IsNil() {
+				isParam = true // the error return
+			}
+			c.check(isParam && v != ssa.Value(fn.Params[0]), "G6p", fmt.Sprintf("%s|return#%d", name, n), c.L.Pos(retPos(ret)), "the action of the parenthesis rule "+name+" returns "+valueText(ret.Results[0])+" instead of the enclosed expression itself: what else stood between the parentheses is dropped")
+		}
+	}
+	c.check(n >= 1, "G6p", "parenthesis rules found", "", fmt.Sprintf("%d returns", n))
 }
